@@ -6,3 +6,10 @@ CONSTANTS MaxCalls = 2
 INIT Init
 NEXT Next
 CONSTRAINT GenBound
+INVARIANT PoolUntouched
+INVARIANT ResultByOriginal
+INVARIANT SessPartition
+INVARIANT SessIdempotent
+INVARIANT SessKeepsCols
+INVARIANT NoCondIsIdentity
+INVARIANT EchoLaw
